@@ -218,6 +218,9 @@ MIRROR = {"<": ">", ">": "<", "<=": ">=", ">=": "<=", "==": "==", "!=": "!="}
 NEG = {"<": ">=", ">": "<=", "<=": ">", ">=": "<", "==": "!=", "!=": "=="}
 
 
+COND_HITS = None      # set() when tools/cond_coverage.py wants to know which branch conditions some rule looked at
+
+
 class M:
     """Matcher bound to a function (for local inlining) and optional named constants."""
 
@@ -466,6 +469,12 @@ class M:
             return e, truth
 
     def cond_matches(self, pat, want, cond, truth):
+        r = self._cond_matches(pat, want, cond, truth)
+        if r and COND_HITS is not None:
+            COND_HITS.add((self.fn.name, show(cond)))
+        return r
+
+    def _cond_matches(self, pat, want, cond, truth):
         """Does taking the edge with `truth` of branch condition `cond` establish `pat` == want?"""
         pat = parse(pat)
         e, t = self.atom(cond, truth)
